@@ -27,11 +27,10 @@ char const* const code_names[] = {"emplace", "reset", "=nullopt", "=T&&", "=T co
     "value_or const&", "value_or &&", "and_then", "or_else const&", "or_else &&", "make_optional", "ctor(value)/in_place", "compare"};
 static_assert(sizeof(code_names) / sizeof(code_names[0]) == NCODES);
 
-template <Kind K>
+template <typename T>
 struct OPT {
-    using T                  = lt::Tracked<K>;
     using V                  = etl::optional<T>;
-    static constexpr bool CP = copyable<K>;
+    static constexpr bool CP = std::is_copy_constructible_v<T>;
 
     static auto snap(V const& o) -> std::vector<int>
     {
@@ -329,12 +328,10 @@ char const* const ecode_names[] = {"emplace", "=expected(in_place,v)", "=expecte
     "move-assign+refill source", "self copy-assign", "self move-assign", "etl::swap", "self etl::swap", "value_or const&", "value_or &&", "and_then", "or_else"};
 static_assert(sizeof(ecode_names) / sizeof(ecode_names[0]) == E_NCODES);
 
-template <Kind K>
+template <typename T, typename E>
 struct EXP {
-    using T                  = lt::Tracked<K>;
-    using E                  = TV<1, K>;
     using V                  = etl::expected<T, E>;
-    static constexpr bool CP = copyable<K>;
+    static constexpr bool CP = std::is_copy_constructible_v<T>;
 
     static auto snap(V const& o) -> std::vector<int>
     {
@@ -537,12 +534,15 @@ struct EXP {
 void init_configs()
 {
     configs() = {
-        Config{"optional<TCM>", &OPT<Kind::copy_move>::run, NCODES, code_names, true},
-        Config{"optional<TMO>", &OPT<Kind::move_only>::run, NCODES, code_names, true},
-        Config{"optional<TCO>", &OPT<Kind::copy_only>::run, NCODES, code_names, true},
-        Config{"expected<TCM,ErrCM>", &EXP<Kind::copy_move>::run, E_NCODES, ecode_names, true},
-        Config{"expected<TMO,ErrMO>", &EXP<Kind::move_only>::run, E_NCODES, ecode_names, true},
-        Config{"expected<TCO,ErrCO>", &EXP<Kind::copy_only>::run, E_NCODES, ecode_names, true},
+        Config{"optional<TCM>", &OPT<lt::TCM>::run, NCODES, code_names, true},
+        Config{"optional<TMO>", &OPT<lt::TMO>::run, NCODES, code_names, true},
+        Config{"optional<TCO>", &OPT<lt::TCO>::run, NCODES, code_names, true},
+        // TA: registry-tracked constructors/destructor, DEFAULTED (trivial) assignment operators (see C03_shared.cpp)
+        Config{"optional<TA>", &OPT<TA<0>>::run, NCODES, code_names, true},
+        Config{"expected<TCM,ErrCM>", &EXP<lt::TCM, TV<1, Kind::copy_move>>::run, E_NCODES, ecode_names, true},
+        Config{"expected<TMO,ErrMO>", &EXP<lt::TMO, TV<1, Kind::move_only>>::run, E_NCODES, ecode_names, true},
+        Config{"expected<TCO,ErrCO>", &EXP<lt::TCO, TV<1, Kind::copy_only>>::run, E_NCODES, ecode_names, true},
+        Config{"expected<TA,ErrTA>", &EXP<TA<0>, TA<2>>::run, E_NCODES, ecode_names, true},
     };
 }
 
